@@ -1407,13 +1407,13 @@ Lemma structc_mk_child_cwf : forall u, cwf (fst (mk_child u)).
 Proof. intros u. unfold mk_child. cbn [fst]. wf_tree. Qed.
 
 Lemma structc_build_cwf : forall x n, cwf (fst (build x n)).
-Proof. intros x n. unfold build. destruct (is_inert x), (has_drv x), (has_flow x); cbn [fst app]; wf_tree. Qed.
+Proof. intros x n. unfold build. destruct (is_inert x), (no_cnt x), (has_drv x), (has_flow x); cbn [fst app]; wf_tree. Qed.
 
 Lemma structc_build_steps : forall x n p pi,
   In (p, pi) (proc_nodes (fst (build x n)) []) -> pi_in_steps pi = true -> pi_step pi = true.
 Proof.
   intros x n p pi Hin Hi. unfold build in Hin.
-  destruct (is_inert x), (has_drv x), (has_flow x); cbn [fst app] in Hin; rewrite proc_nodes_dir in Hin;
+  destruct (is_inert x), (no_cnt x), (has_drv x), (has_flow x); cbn [fst app] in Hin; rewrite proc_nodes_dir in Hin;
     cbn [flat_map fst snd proc_nodes cdepth app] in Hin;
     repeat (destruct Hin as [Hin|Hin]; [inversion Hin; subst; cbn in Hi |- *; congruence|]); destruct Hin.
 Qed.
